@@ -369,13 +369,15 @@ P["C05"] = {
         "reference semantics (DESIGN Appendix C) generated by tools/gen_c05.py from the PUBLISHED precedence table: trees grouped by that table, printed with only the parentheses it requires; value = 64-bit Go arithmetic with int->float promotion, / = real quotient",
         "side conditions of the property: divisors non-zero, |operands| < 1000 (no overflow), no NaN"],
     "bounds": "every ordered pair of the 15 binary operators 'x op1 y op2 z' over every operand-kind triple (int/bool/float) that is well-typed (321 cases), 19 notation cases (parentheses overriding / redundant, comments, literal notations decimal/hex/octal/exponent/hex-float, keyword case, uint8 operand), 24 depth-3 trees, 5 negation forms; method-call argument order and variadics (template b_args); string == and + on concrete strings; each as an assignment to a typed sink and (bool) as a rule condition; operands symbolic",
-    "outside": "the lexer is not encoded: literal notations, whitespace and comments are exercised concretely, once each, not solver-quantified; built-in string/array/map functions; string contents; expression depth > 3; operand values beyond |v| < 1000",
+    "outside": "the lexer is not encoded: literal notations, whitespace and comments are exercised concretely, once each, not solver-quantified; built-in functions with symbolic STRING operands (strings and times are concrete in the built-in family), the remaining math wrappers (trigonometric, Gamma, Bessel ...); string contents; expression depth > 3; operand values beyond |v| < 1000",
     "runs": [{"name": "c05-family", "pkgdir": "zztier", "harness": TIERC_H, "entry": "VerifC05All", "tiers": QT, "templates": ["c05_%d.grl" % t for t in range(13)],
               "require_reach": ["c05:case"], "witnesses": 12, "bounds": "the whole generated family (367 expressions): evaluated through Sink = <expr> and as a rule condition on symbolic operands"},
              tierB("values", 3, 0, QT, require_reach=["tierB:execute-returned", "tierB:args-fired"]),
              {"name": "quote-roundtrip-1", "pkgdir": "antlr", "harness": [["antlr", "harness/antlr"], ["pkg", "harness/pkg"]], "entry": "VerifQuoteRoundTrip", "args": [1], "tiers": QT,
               "init": ["strconv", "unicode/utf8"], "require_reach": ["c18:quoted"], "extra_label_prefixes": ["C18:string-constant"], "quick": {"max_values": 300}, "thorough": {"max_values": 300},
-              "bounds": "string literal decoding (unquoteString) of the quoted form of every 1-byte string"}]}
+              "bounds": "string literal decoding (unquoteString) of the quoted form of every 1-byte string"},
+             {"name": "c05-builtins", "pkgdir": "zztier", "harness": TIERC_H, "entry": "VerifC05Builtin", "tiers": QT, "templates": ["c05b.grl"], "require_reach": ["c05:builtin-case"],
+              "bounds": "46 built-in / math / constant-function cases (Max, Min, Abs, rounding family, Sqrt, IsNaN, IsInf, string Len/Contains/HasPrefix/HasSuffix/Index/LastIndex/Count/Compare/ToUpper/ToLower/Repeat/Replace/Trim/In/MatchString, array and map Len, IsNil, IsZero, MakeTime/IsTimeBefore/IsTimeAfter/GetTime*/TimeFormat) against their Go result: float and int operands symbolic, strings and times concrete"}]}
 
 P["C04"]["runs"].append(tierB("json", 2, 0, T))
 # generated template family (tools/gen_tb.py, fixed seed): 40 random rule sets, each biased to one container addressed through
